@@ -168,7 +168,7 @@ def outcome(ffi, s):
 
 # --------------------------------------------------------------------------- generator output
 
-_LINE = re.compile(r'^"(<<\\"(?:R|NM|P|T)\\".*>>)"\s*$')
+_LINE = re.compile(r'^"(<<\\"(?:R|NM|P|T|L)\\".*>>)"\s*$')
 _ESC = {"n": "\n", "t": "\t", "f": "\f", "r": "\r", '"': '"', "\\": "\\"}
 
 
